@@ -121,6 +121,34 @@ func execute(e *rt.Entry, sc *prog.Scenario, id uint64, quiet bool, setCur bool)
 		}()
 	case "":
 		x.OpenGate()
+	case "hwm":
+		n := int64(0)
+		for _, o := range sc.Out {
+			if o.Gate {
+				n++
+			}
+		}
+		if int64(x.Limit) < n {
+			n = int64(x.Limit)
+		}
+		x.ReachTgt = n
+		helpers.Add(1)
+		go func() {
+			defer helpers.Done()
+			select {
+			case <-x.Reached():
+				// all the limit allows are in; give any excess time to show up
+				t0 := time.Now()
+				for time.Since(t0) < 3*time.Millisecond {
+					runtime.Gosched()
+				}
+			case <-stop:
+			}
+			x.OpenGate()
+		}()
+		if quiet || n == 0 {
+			x.OpenGate()
+		}
 	case "report":
 		if quiet {
 			x.OpenGate() // race builds have no recording emitter to open it
@@ -316,6 +344,8 @@ func applicable(p *prog.Program, tag string) bool {
 		return p.HasFeature("predicate")
 	case "state":
 		return p.HasFeature("emitters")
+	case "wide":
+		return p.HasFeature("wide")
 	}
 	return true
 }
